@@ -1,7 +1,7 @@
 """Property table and the generic check flow."""
 import json, os, re, shutil, time
 from . import common as C
-from . import judge_pool, judge_valid, judge_hist
+from . import judge_pool, judge_valid, judge_hist, facts as factmod
 
 
 class Result:
@@ -119,6 +119,13 @@ PROPS = {
                 rule=HIST_RULE + "; profile 'mal': every sixth event injects hostile content - range strings (garbage, missing prefix, prefix out of range, other family, IPv4-mapped, unmasked, upper case), "
                      "perNodeHostBits over the whole int32 range, unrepresentable selectors, node pod CIDRs that do not parse or belong to no ClusterCIDR, tombstones, service ranges of either family; every step under recover and a watchdog"),
     "C20": dict(mod="IpamVerif.Props.C20", engine="hist", streams=[("hist", "hist", make_proj(["mut"], "none")), ("restart", "hist", make_proj(["mut"], "none"))], judge=("hist", {"C20"}), rule=HIST_RULE),
+    "C15": dict(mod="IpamVerif.Props.C15", engine="facts+conc", streams=[], judge=("conc", None),
+                rule="translator: call graph of package ipam regenerated from source, checker re-run by the Lean kernel; supporting validation: seeded workloads on the real Run "
+                     "(30+30 workers, real rate-limiting queues, two informer goroutines, six API mutators, injected write failures) under the Go race detector; a case = one workload; "
+                     "non-trivial if it performed node PATCHes; the final state is judged for overlap, unjustified blocks and finalizer removal with dependants"),
+    "C16": dict(mod="IpamVerif.Props.C16", engine="facts", streams=[], judge=("facts", None),
+                rule="translator: every function and closure of package ipam (non-test files) with its static call edges, lock prologue, other lock operations, shared-state accesses, "
+                     "entry points; the table is regenerated on every run and `checker Facts.graph = true` is re-decided by the Lean kernel; a case = one function of the table"),
     "C17": dict(mod="IpamVerif.Props.C17", engine="hist", streams=[("hist", "hist", make_proj(["res", "patches"], "nocursor"))], judge=("hist", {"C02", "C05"}),
                 rule=HIST_RULE + "; for C17 the selector keys in the pool snapshot are compared byte for byte with the model's printed keys and the serving / refusing decisions are judged for eligibility in both directions"),
     "C18": dict(mod="IpamVerif.Props.C18", engine="valid", streams=[("valid", "valid", proj_all)], judge=("valid", None),
@@ -196,8 +203,82 @@ def write_replay(res, stream, ops, impl, model, i, reason):
     return p
 
 
+def facts_and_conc(res, spec):
+    """C16 / C15: the tie is the translator; when the kernel rejects the table, exhibit the offending call path"""
+    kind, _ = spec["judge"]
+    f = factmod.load()
+    if f is None:
+        res.corr_breaks.append(("factgen", -1, "no fact table", "", ""))
+        return
+    summ = factmod.summary(f)
+    res.cov["streams"]["factgen"] = summ
+    res.cov["evaluations"] += summ["functions"]
+    res.cov["distinct_nontrivial"] += summ["functions"]
+    res.cov["traces_validated_against_impl"] += summ["functions"]
+    res.cov["samples"] += [dict(function=x["name"], holdsLock=x["holdsLock"], touches=x["touches"], root=x["root"], calls=x["calls"]) for x in f["fns"] if x["holdsLock"] or x["root"]][:6]
+    bad = factmod.offending_paths(f)
+    for b in bad[:5]:
+        d = os.path.join(C.WORK, "replays")
+        os.makedirs(d, exist_ok=True)
+        rp = os.path.join(d, f"{res.pid}-path-{len(res.violations)}.txt")
+        with open(rp, "w") as fh:
+            fh.write(f"# property {res.pid}: offending call path in /repo's source (regenerated fact table)\n")
+            fh.write(f"kind: {b['kind']}\npath: {' -> '.join(b['path'])}\n")
+            if b.get("pos"):
+                fh.write(f"at: {b['pos']}\n")
+            for w in b.get("why", []):
+                fh.write(f"why: {w}\n")
+        res.violations.append(dict(msg=f"{b['kind']}: {' -> '.join(b['path'])}", replay=rp))
+    if kind == "conc" and not getattr(res, "build_failed", False):
+        rounds = 20 if res.tier == "thorough" else 3
+        binp = os.path.join(C.HARNESS, "bin", "concharness")
+        r = C.run(["go", "build", "-race", "-tags", "verif", "-o", binp, "./cmd/concharness"], cwd=C.HARNESS, env=C.GOENV, timeout=1800)
+        if r.returncode != 0:
+            res.corr_breaks.append(("conc", -1, "concharness does not build", r.stdout[-1500:], ""))
+            return
+        outp = os.path.join(res.workdir, "conc.json")
+        os.makedirs(res.workdir, exist_ok=True)
+        env = dict(C.GOENV, GORACE="halt_on_error=1 exitcode=66")
+        import subprocess
+        try:
+            pr = subprocess.run([binp, "-seed", str(res.seed), "-rounds", str(rounds), "-out", outp], env=env, stdout=subprocess.PIPE,
+                                stderr=subprocess.PIPE, text=True, timeout=1500)
+            rc, so, se = pr.returncode, pr.stdout, pr.stderr
+        except subprocess.TimeoutExpired:
+            rc, so, se = 124, "", "timeout (workers stuck?)"
+        res.cov["streams"]["conc"] = dict(rounds=rounds, exit=rc)
+        res.cov["evaluations"] += rounds
+        d = os.path.join(C.WORK, "replays")
+        os.makedirs(d, exist_ok=True)
+        if rc == 66 or "WARNING: DATA RACE" in se:
+            rp = os.path.join(d, f"{res.pid}-race-{res.seed}.txt")
+            i = se.find("WARNING: DATA RACE")
+            open(rp, "w").write(f"# concharness -seed {res.seed} -rounds {rounds} (built -race)\n" + se[i:i + 6000])
+            res.violations.append(dict(msg="data race reported by the Go race detector under the concurrent workload", replay=rp))
+        elif rc == 3:
+            vs = [l for l in so.split("\n") if l.startswith("CONC-VIOLATION")]
+            rp = os.path.join(d, f"{res.pid}-conc-{res.seed}.txt")
+            open(rp, "w").write(f"# concharness -seed {res.seed} -rounds {rounds}\n" + "\n".join(vs) + "\n")
+            res.violations.append(dict(msg=vs[0][:300] if vs else "concurrent workload judged bad", replay=rp))
+        elif rc != 0:
+            rp = os.path.join(d, f"{res.pid}-conc-{res.seed}.txt")
+            open(rp, "w").write(f"# concharness -seed {res.seed} -rounds {rounds}: exit {rc}\n" + se[-4000:])
+            res.violations.append(dict(msg=f"concurrent workload did not finish cleanly (exit {rc}: crash, deadlock or timeout)", replay=rp))
+        else:
+            try:
+                cj = json.load(open(outp))
+                res.cov["streams"]["conc"]["patches"] = cj.get("patches")
+                res.cov["distinct_nontrivial"] += rounds if cj.get("patches", 0) > 0 else 0
+                res.cov["traces_validated_against_impl"] += rounds
+            except Exception:
+                pass
+
+
 def correspond(res, spec):
     if getattr(res, "build_failed", False):
+        return
+    if spec["judge"][0] in ("facts", "conc"):
+        facts_and_conc(res, spec)
         return
     for (stream, mode, proj) in spec["streams"]:
         wd = os.path.join(res.workdir, stream)
